@@ -73,7 +73,7 @@ func NewSimpleURL(u *url.URL) (SimpleURL, error) {
 			}
 		case name == "filter":
 			var err error
-			if values.Get(name)[0] != '{' {
+			if val := values.Get(name); len(val) == 0 || val[0] != '{' {
 				// It should be a label
 				err = json.Unmarshal([]byte("\""+values.Get(name)+"\""), &sURL.FilterLabel)
 			} else {
